@@ -72,15 +72,36 @@ impl Clone for Redeemer { #[verifier::external_body] fn clone(&self) -> (r: Self
 /// C10 (votes; the property names four purposes, the code has a fifth): a voting redeemer points at the position of its VOTER in the
 /// builder's voter map in ascending order (BTreeMap iteration, modelled as the sorted entry sequence) - one pointer per voter, however
 /// many votes the voter casts
-pub open spec fn vote_ptrs(s: Seq<(Voter, VoterVotes)>, tag: RedeemerTag) -> Seq<PlutusWitness> decreases s.len() {
+/// vt_lt is the ledger's strict order on voters (derived Ord of `Voter`): committee hot credential, then DRep, then stake pool; within a role
+/// script credentials before key credentials (`Credential = ScriptHashObj | KeyHashObj`), then hash bytes
+pub open spec fn v_role(v: Voter) -> int { match v.0 { VoterEnum::ConstitutionalCommitteeHotCred(_) => 0, VoterEnum::DRep(_) => 1, VoterEnum::StakingPool(_) => 2 } }
+pub open spec fn v_is_script(v: Voter) -> bool { match v.0 { VoterEnum::ConstitutionalCommitteeHotCred(c) => c.is_script(), VoterEnum::DRep(c) => c.is_script(), VoterEnum::StakingPool(_) => false } }
+pub open spec fn v_raw(v: Voter) -> Seq<u8> { match v.0 { VoterEnum::ConstitutionalCommitteeHotCred(c) => c.raw(), VoterEnum::DRep(c) => c.raw(), VoterEnum::StakingPool(k) => k.raw() } }
+pub open spec fn vt_lt(a: Voter, b: Voter) -> bool {
+    if v_role(a) != v_role(b) { v_role(a) < v_role(b) } else if v_is_script(a) != v_is_script(b) { v_is_script(a) } else { lex_lt(v_raw(a), v_raw(b)) }
+}
+pub open spec fn vrank_in(s: Seq<(Voter, VoterVotes)>, a: Voter) -> nat decreases s.len() {
+    if s.len() == 0 { 0 } else { vrank_in(s.drop_last(), a) + (if vt_lt(s.last().0, a) { 1nat } else { 0nat }) }
+}
+pub proof fn lemma_vrank_step(s: Seq<(Voter, VoterVotes)>, i: int, a: Voter)
+    requires 0 <= i < s.len()
+    ensures vrank_in(s.take(i + 1), a) == vrank_in(s.take(i), a) + (if vt_lt(s[i].0, a) { 1nat } else { 0nat }), vrank_in(s.take(i), a) <= i
+    decreases i
+{
+    assert(s.take(i + 1).drop_last() =~= s.take(i));
+    if i > 0 { lemma_vrank_step(s, i - 1, a); }
+}
+/// C10 (votes): a voting redeemer points at the RANK of its voter among all voters of the builder in the LEDGER's order (KF-55: it was the position in the
+/// library's own voter order, which puts key credentials before script credentials)
+pub open spec fn vote_ptrs(all: Seq<(Voter, VoterVotes)>, s: Seq<(Voter, VoterVotes)>, tag: RedeemerTag) -> Seq<PlutusWitness> decreases s.len() {
     if s.len() == 0 { Seq::empty() } else {
-        let p = vote_ptrs(s.drop_last(), tag);
-        match s.last().1.script_witness { Some(ScriptWitnessType::PlutusScriptWitness(w)) => p.push(with_ptr(w, (s.len() - 1) as nat, tag)), _ => p }
+        let p = vote_ptrs(all, s.drop_last(), tag);
+        match s.last().1.script_witness { Some(ScriptWitnessType::PlutusScriptWitness(w)) => p.push(with_ptr(w, vrank_in(all, s.last().0), tag)), _ => p }
     }
 }
-pub proof fn lemma_vote_ptrs_step(s: Seq<(Voter, VoterVotes)>, i: int, tag: RedeemerTag)
+pub proof fn lemma_vote_ptrs_step(all: Seq<(Voter, VoterVotes)>, s: Seq<(Voter, VoterVotes)>, i: int, tag: RedeemerTag)
     requires 0 <= i < s.len()
-    ensures vote_ptrs(s.take(i + 1), tag) == (match s[i].1.script_witness { Some(ScriptWitnessType::PlutusScriptWitness(w)) => vote_ptrs(s.take(i), tag).push(with_ptr(w, i as nat, tag)), _ => vote_ptrs(s.take(i), tag) })
+    ensures vote_ptrs(all, s.take(i + 1), tag) == (match s[i].1.script_witness { Some(ScriptWitnessType::PlutusScriptWitness(w)) => vote_ptrs(all, s.take(i), tag).push(with_ptr(w, vrank_in(all, s[i].0), tag)), _ => vote_ptrs(all, s.take(i), tag) })
 { assert(s.take(i + 1).drop_last() =~= s.take(i)); }
 
 pub open spec fn script_mint_entries(m: ScriptMint) -> Seq<(AssetName, Int)> { match m { ScriptMint::Native(n) => n.mints.entries@, ScriptMint::Plutus(p) => p.mints.entries@ } }
@@ -110,3 +131,15 @@ pub proof fn lemma_spend_step(vals: Seq<InEntry>, t: Seq<(ScriptHash, WitEntries
 pub open spec fn map_ok<'a>(m: Map<&'a TransactionInput, BigNum>, vals: Seq<InEntry>, n: int) -> bool {
     forall|k: &'a TransactionInput| (m.contains_key(k) <==> idx_of(vals, *k, n) is Some) && (m.contains_key(k) ==> m[k].0 == idx_of(vals, *k, n)->Some_0)
 }
+
+/// C10 (proposals): each Plutus witness of the proposal builder points at the position of its proposal in the builder's sequence
+pub open spec fn prop_ptrs(s: Seq<(VotingProposal, Option<ScriptWitnessType>)>, tag: RedeemerTag) -> Seq<PlutusWitness> decreases s.len() {
+    if s.len() == 0 { Seq::empty() } else {
+        let p = prop_ptrs(s.drop_last(), tag);
+        match s.last().1 { Some(ScriptWitnessType::PlutusScriptWitness(w)) => p.push(with_ptr(w, (s.len() - 1) as nat, tag)), _ => p }
+    }
+}
+pub proof fn lemma_prop_ptrs_step(s: Seq<(VotingProposal, Option<ScriptWitnessType>)>, i: int, tag: RedeemerTag)
+    requires 0 <= i < s.len()
+    ensures prop_ptrs(s.take(i + 1), tag) == (match s[i].1 { Some(ScriptWitnessType::PlutusScriptWitness(w)) => prop_ptrs(s.take(i), tag).push(with_ptr(w, i as nat, tag)), _ => prop_ptrs(s.take(i), tag) })
+{ assert(s.take(i + 1).drop_last() =~= s.take(i)); }
